@@ -13,6 +13,8 @@ def plan(tier):
         "required_obligations": [
             "tok_exhaustive", "line_tokens_exhaustive", "tok_long", "rt_fasta", "rt_fastq", "empty_list",
             "writer_sink_short_writes_beyond_capacity", "writer_default_capacity_exceeded_short_sink",
+            "sniff_at_nonzero_offset", "sniff_seek_at_offset", "sniff_get_kind_at_offset", "sniff_after_consuming",
+            "sniff_second_block_same_format", "header_unicode_whitespace",
             "cap1", "cap8192", "sched_all1", "sched_line_end", "wrap1", "wrap_eq_len", "wrap_len_plus1",
             "fastq_multiline", "crlf", "cut", "cut_all_offsets", "either_fasta", "either_fastq",
             "desc_with_whitespace", "qual_lead_at", "qual_lead_plus", "damaged", "arbitrary_ascii",
@@ -26,7 +28,10 @@ def plan(tier):
                 "4 / 5 lines over 8 line tokens, random token soup, valid record lists (<= 6 records, printable ASCII) "
                 "written by the real writers (also through BufWriters of capacity 1..64 / 8192 into sinks that accept only "
                 "1, 7 or 4096 bytes per write() call, with records longer than the capacity), re-wrapped {None,1,2,7,60,len,len+1}, CRLF, every cut offset of small "
-                "streams and line-end cuts of large ones, damaged valid streams, arbitrary ASCII / non-ASCII / "
+                "streams and line-end cuts of large ones, the sniffer (get_kind_seek twice / get_kind) on a seekable "
+                "source positioned at a non-zero offset (a block of the other format, the same block, or junk in "
+                "front; offset reached by seek or by consuming bytes) followed by the selected reader, headers with "
+                "multi-byte Unicode white space, damaged valid streams, arbitrary ASCII / non-ASCII / "
                 "invalid UTF-8 bytes",
         "bounds": {"mc": "token alphabet {> @ + space CR LF A !}, all strings <= 5 (quick) / 6 (thorough) bytes through "
                          "the FASTA, FASTQ and sniffer machines; all lists of <= 2 tiny valid records x wraps 0..2/3 x "
